@@ -62,7 +62,9 @@ func partition(c *mon.Ctx, m *ref.TSPacket) {
 	orig := p
 	hl := m.HeaderLen()
 	c.Eval(1)
-	w := func(d string) wit { return wit{Op: "partition", Before: mon.Hex(orig[:]), Detail: d + " (" + desc(m) + ")"} }
+	w := func(d string) wit {
+		return wit{Op: "partition", Before: mon.Hex(orig[:]), Detail: d + " (" + desc(m) + ")"}
+	}
 	if h := packet.Header(&p); !bytes.Equal(h, orig[:hl]) {
 		c.Fail("partition:header", fmt.Sprintf("Header() returned %d bytes, the header (4 bytes + adaptation field) is %d bytes (%s)", len(h), hl, desc(m)), w(""))
 	}
